@@ -64,8 +64,8 @@ def determinism(seed, quick=True, only=None):
         report[pid] = entry
         print(f"determinism {pid}: {entry}")
         sys.stdout.flush()
-    os.makedirs(runner.OUT, exist_ok=True)
-    with open(os.path.join(runner.OUT, "determinism.json"), "w") as f:
+    os.makedirs(runner.EVIDENCE, exist_ok=True)
+    with open(os.path.join(runner.EVIDENCE, "determinism-quick.json" if quick else "determinism.json"), "w") as f:
         json.dump({"seed": seed, "report": report, "wall_s": round(time.time() - t0, 1)}, f, indent=1)
     if bad:
         print(f"HARNESS-ERROR determinism self-test failed for {bad} comparisons")
